@@ -37,7 +37,7 @@ def plan(tier, seed):
     if tier == 'quick':
         return {'n': 2800, 'budget_s': 45, 'min_evals': 30000,
                 'floors': {'parses': 30000, 'prefix_must_fail': 10000, 'exact_lineno_checked': 6000,
-                           'generic_mutations': 6000, 'prefix_complete': 300}}
+                           'generic_mutations': 6000, 'prefix_complete': 300, 'multiline_token_errors': 500}}
     return {'n': 60000, 'budget_s': 650, 'min_evals': 1000000,
             'floors': {'parses': 1000000, 'prefix_must_fail': 400000, 'exact_lineno_checked': 200000,
                        'generic_mutations': 200000, 'prefix_complete': 10000}}
@@ -225,6 +225,31 @@ def run_case(idx, rng, tier, res):
         if oc[0] == 'pkgerr' and not isinstance(oc[2], want_cls):
             res.violation('wrong_error_class', '%r: %s raised' % (bad, type(oc[2]).__name__),
                           replay={'text': mutated, 'dialect': dialect}, mutation=kind)
+
+    # ---- (b2) a text keyword deleted in front of a (multi-line) quoted string: the string itself is
+    # the offending token and the error must name the line it *starts* on
+    TEXTKW = ('DESCRIPTION', 'REFERENCE', 'ORGANIZATION', 'CONTACT-INFO', 'UNITS', 'LAST-UPDATED',
+              'PRODUCT-RELEASE', 'DISPLAY-HINT')
+    sites = [k for k in range(len(toks) - 1) if toks[k] in TEXTKW and str(toks[k + 1]).startswith('"')]
+    multi = [k for k in sites if LINEBREAK.search(str(toks[k + 1]))]
+    for k in (rng.sample(multi, min(len(multi), 4)) + rng.sample(sites, min(len(sites), 2))):
+        a, b = spans[k]
+        mutated = text[:a] + ' ' * (b - a) + text[b:]
+        want_line = line_of(mutated, spans[k + 1][0])
+        oc = attempt(dialect, mutated)
+        if not generic_judgement(res, 'drop_text_keyword', dialect, mutated, oc):
+            continue
+        nmut += 1
+        res.count('exact_lineno_checked')
+        res.count('multiline_token_errors' if k in multi else 'singleline_token_errors')
+        if oc[0] == 'ok':
+            res.violation('bad_token_accepted', 'text keyword %s deleted, text still parsed' % toks[k],
+                          replay={'text': mutated, 'dialect': dialect}, mutation='drop_text_keyword')
+        elif oc[2].lineno != want_line:
+            res.violation('wrong_lineno', 'quoted text without its %s keyword starts on line %d, %s says line %r' % (
+                toks[k], want_line, type(oc[2]).__name__, oc[2].lineno),
+                replay={'text': mutated, 'dialect': dialect}, mutation='drop_text_keyword',
+                multiline=k in multi, after_block=False)
 
     # ---- (c) delete / duplicate / replace / swap one token, (d) character noise
     for _ in range(14 if tier == 'quick' else 60):
